@@ -19,7 +19,7 @@
    Repl/ValClient_proofs.v, Repl/ValE2E_proofs.v; pinned statements: Properties/C02E.v. *)
 From RV Require Import Lib.Res Repl.ClientTicks Repl.World Vis.Visibility Tick.RepliconTick Tick.ConfirmHistory
   Tick.MutateTicks Repl.Server Repl.ServerSpec Repl.StructSpec Repl.Client Repl.Sys Repl.ClientStructSpec
-  Repl.StructE2E_proofs Repl.StructE2EMut_proofs.
+  Repl.ClientStruct_proofs Repl.StructE2E_proofs Repl.StructE2EMut_proofs.
 Open Scope N_scope.
 
 (* ================================================================== *)
@@ -255,11 +255,17 @@ Section Inv.
     exists r s1, SN (u_tick u) r s1 /\
       forall e, mentions u e -> ent_promise s c pend (u_tick u) s1 e (al_dflt e (u_changes u)).
 
+  (* entity [e] has had the same component kinds in every snapshot from run stamp [a] up to the snapshot [s1] of run [r1] *)
+  Definition kstable (r1 : N) (s1 : server) (e a : N) : Prop :=
+    forall t r s0, SN t r s0 -> a <= r -> r <= r1 ->
+      ClientStruct_proofs.opt_equiv (al_get e (struct_of s0)) (al_get e (struct_of s1)).
+
   Definition mut_ok (s : server) (c : client) (pend : list update_msg) (m : mutate_msg) : Prop :=
     m_upd_tick m <= m_tick m /\
     exists r s1, SN (m_tick m) r s1 /\
       forall e vals, In (e, vals) (m_body m) ->
-        entry_vals s1 e vals /\ exists a, entry_since s1 e vals a /\ conf_since s c pend (m_upd_tick m + 1) e a.
+        entry_vals s1 e vals /\
+        exists a, entry_since s1 e vals a /\ conf_since s c pend (m_upd_tick m + 1) e a /\ kstable r s1 e a.
 
   (* [pend]: update messages sent and not yet applied (inbox ++ queue), [muts]: mutate messages in the
      queue, the inbox or the buffer *)
@@ -267,15 +273,20 @@ Section Inv.
     cv_cs : cs_inv c;
     cv_pu : ClientStruct_proofs.pu c;
     cv_mo : mapped_ok c;
-    (* T: the components of a replica carry the values of the snapshot of its confirmed tick *)
+    (* T: a replica has the component kinds and carries the values of the snapshot of its confirmed tick *)
     cv_T : forall e x h, has c e x h ->
-           exists r s1 x1, SN (h_last h) r s1 /\ get_ent s1 e = Some x1 /\ agree (ce_comps x) (se_comps x1);
+           exists r s1 x1, SN (h_last h) r s1 /\ repl_get s1 e = Some x1 /\ agree (ce_comps x) (se_comps x1) /\
+                           kinds_equiv (map fst (ce_comps x)) (map fst (se_comps x1));
     cv_ut : cl_upd_tick c = 0 \/ exists r s1, SN (cl_upd_tick c) r s1;
     cv_lt : forall u, In u pend -> cl_upd_tick c < u_tick u;
     cv_incr : ticks_incr pend;
     cv_pend : forall u, In u pend -> upd_ok s c pend u;
     cv_muts : forall m, In m muts -> mut_ok s c pend m;
-    cv_desp : desp_ok s pend
+    cv_desp : desp_ok s pend;
+    (* applying what is on its way up to an update message gives the structure of its snapshot *)
+    cv_struct : forall p u q, pend = p ++ u :: q ->
+                exists r s1, SN (u_tick u) r s1 /\
+                  struct_equiv (fold_left abs_apply (p ++ [u]) (client_struct c)) (struct_of s1)
   }.
 
   (* [cl]: the server's record of the client, [acks]: acknowledged indices on their way *)
@@ -291,7 +302,16 @@ Section Inv.
     sv_aidx : forall i, In i acks -> i < ct_mutate_index (sc_ticks cl);
     sv_ut : ct_update_tick (sc_ticks cl) <= sv_tick s;
     sv_utp : forall u, In u pend -> u_tick u <= ct_update_tick (sc_ticks cl);
-    sv_nd : NoDup (al_keys (ct_mutations (sc_ticks cl)))
+    sv_nd : NoDup (al_keys (ct_mutations (sc_ticks cl)));
+    (* since the run of its acknowledged stamp an entity has had the kinds the client has (will have) *)
+    sv_SK : forall e a, mutation_tick (sc_ticks cl) e = Some a -> forall t r s0, SN t r s0 -> a <= r ->
+            ClientStruct_proofs.opt_equiv (al_get e (struct_of s0)) (al_get e (fold_left abs_apply pend (client_struct c)));
+    (* stamps are below the counter *)
+    sv_le : (forall e a, mutation_tick (sc_ticks cl) e = Some a -> a < sv_now s) /\
+            (forall i info, al_get i (ct_mutations (sc_ticks cl)) = Some info -> ClientTicks.mi_tick info < sv_now s);
+    (* the update tick the server keeps is the tick of the last update message sent; mutate messages require no later one *)
+    sv_mupd : forall m, In m muts -> m_upd_tick m <= ct_update_tick (sc_ticks cl);
+    sv_last : ct_update_tick (sc_ticks cl) = last (map u_tick pend) (cl_upd_tick c)
   }.
 End Inv.
 
